@@ -402,8 +402,9 @@ def run_race(case):
     base = _st["scratch"].sub("r%d" % rng.randrange(10 ** 9))
     viol, stats = [], {"schedules": 0, "inconclusive_runs": 0}
     runno = [0]
-    ref = b"refs/heads/loose" if case["ref"] == "loose" else b"refs/heads/master"
-    cur = _st["pre_refs"][ref]
+    ref = {"loose": b"refs/heads/loose", "packed": b"refs/heads/master", "new": b"refs/heads/created-in-race", "new-nested": b"refs/heads/race/nested",
+           "new-tag": b"refs/tags/race"}[case["ref"]]
+    cur = _st["pre_refs"].get(ref, ZERO)
     news = [ids["n1"], ids["n4"]]
     packs = [make_pack([n], list(_st["pre_refs"].values())) for n in news]
     n_inter = 0
@@ -414,6 +415,7 @@ def run_race(case):
         shutil.copytree(_st["srv"], root, symlinks=True)
         layer = fsint.Layer(root, hot=hot)
         reports = {}
+        seen = {}
 
         def mk(i):
             def body():
@@ -431,6 +433,7 @@ def run_race(case):
                     src = Repo(_st["cli"])
                     try:
                         def update_refs(refs):
+                            seen[i] = refs.get(ref, ZERO)       # the old value this pusher's compare-and-swap is entitled to use
                             return {ref: news[i]}
 
                         def gen(have, want, ofs_delta=False, progress=None):
@@ -448,6 +451,7 @@ def run_race(case):
         finally:
             fsint.uninstall()
         run.reports = reports
+        run.seen = seen
         run.root = root
         return run
 
@@ -469,9 +473,13 @@ def run_race(case):
         if len(oks) == 2 and case["path"] == "handler":
             # both requests name the same old value: in any serial order the second one is stale
             viol.append({"sig": "C06/%s/both-racing-pushers-reported-ok" % tag, "schedule": run.choices()[:200]})
-        if len(oks) == 2 and case["path"] == "local" and final not in news:
-            # the local client takes its old value from the target at call time, so two successes are one serial order
-            viol.append({"sig": "C06/%s/both-ok-but-final-value-is-neither" % tag, "schedule": run.choices()[:200]})
+        if len(oks) == 2 and case["path"] == "local":
+            # the local client takes its old value from the target when it lists the refs, so two successes are legal exactly when they
+            # form a serial order: the first saw the initial value, the second saw the first one's value, and the ref ends at the second's
+            legal = any(run.seen.get(x) == cur and run.seen.get(y) == news[x] and final == news[y] for x, y in ((0, 1), (1, 0)))
+            if not legal:
+                viol.append({"sig": "C06/%s/both-pushers-reported-ok-but-no-serial-order-explains-it" % tag, "schedule": run.choices()[:200],
+                             "saw": [core.short(run.seen.get(0), 12), core.short(run.seen.get(1), 12)], "final": core.short(final, 12)})
         if len(oks) == 1 and final != news[oks[0]]:
             viol.append({"sig": "C06/%s/winner-reported-ok-but-ref-holds-other-value" % tag, "schedule": run.choices()[:200]})
         if len(oks) == 0 and final != cur:
@@ -500,12 +508,12 @@ def main(ctx):
     for i in range(ctx.budget(16, 160)):
         cases.append({"kind": "gitpush", "seed": "%d/g/%d" % (ctx.seed, i), "n": 6})
     for path in ("handler", "local"):
-        for ref in ("loose", "packed"):
+        for ref in ("loose", "packed", "new", "new-nested", "new-tag"):
             cases.append({"kind": "race", "seed": "%d/r/%s/%s" % (ctx.seed, path, ref), "path": path, "ref": ref, "max_runs": ctx.budget(150, 1500)})
     ctx.rule = ("command lists of 1..3 commands over 6 refs (loose, packed, new, nested) with old in {right, stale, zero-but-exists, "
                 "nonzero-but-absent} x new in {4 new commits, object already on server, delete, missing object, not in pack} x {atomic, "
                 "side-band-64k, ofs-delta}; git push [--atomic] [--force-with-lease right/stale] against the dulwich TCP server; two racing "
-                "pushers under the scheduler (handler and LocalGitClient paths, loose and packed ref). non-trivial = distinct (capability set, "
+                "pushers under the scheduler (handler and LocalGitClient paths; loose, packed and not yet existing refs incl. nested and tag). non-trivial = distinct (capability set, "
                 "command kinds) / distinct interleaving.")
     ctx.assumptions = ["sequential receive-pack model: command succeeds iff current==old (zero=absent) and new is zero or present after unpack; atomic = all or none",
                        "server refs are read back with C git"]
